@@ -7,13 +7,16 @@ Ranges: the code computes in uint32_t.  The theorems exclude (decidable hypothes
 days of the uint32 epoch range where `next += kSecondsOfDay` wraps (t + 9 d ≤ 2^32 for weekly,
 t + 368 d ≤ 2^32 for workday) and local times before 1970 (`InRange`); the model itself wraps
 like the code (correspondence-checked over the whole range).
-Cron: CronAlarm delegates to the third-party ccronexpr, which is NOT modelled; Part 4 proves that the
-independent reference `Cron.nextCron` (to which ccronexpr is tied by correspondence only) returns the
-declaratively earliest matching instant.
+Cron: CronAlarm delegates to the third-party ccronexpr.  Part 5 proves that the independent reference
+`Cron.nextCron` returns the declaratively earliest matching instant; Part 6 is about the TRANSCRIPTION of
+ccronexpr itself (CCron.lean: `cron_parse_expr` on the raw bytes, `cron_next`/`do_next` over struct tm + timegm):
+every accepted expression has non-empty field sets, and every instant `cron_next` returns matches the expression.
 -/
 import TboxModel.C20.HistProofs
 import TboxModel.C20.WProofs
 import TboxModel.C20.CronProofs
+import TboxModel.C20.CCronProofs
+import TboxModel.C20.CCronFwd
 namespace Tbox.C20
 
 /-! ### Part 1 — the next-instant computations -/
@@ -371,6 +374,150 @@ theorem C20_cron_horizon (e : Cron.Expr) (t H L : Nat) (h : Cron.nextCronDay e t
     Cron.yearOf L > Cron.cronDot e t + 4 ∧ ∀ r', t < r' → r' / 86400 < L → ¬ Cron.CronMatch e r' :=
   Cron.nextCron_beyond e t H L h
 
+/-! ### Part 6 — the third-party evaluator ccronexpr itself (CCron.lean: a transcription of `cron_parse_expr` on the
+raw bytes of the expression and of `cron_next` / `do_next` / `find_next` / `find_next_day` over `struct tm` + `timegm`),
+tied to the real code on every run: bit sets as `M` lines, acceptance and next instants as `P` lines -/
+
+/-- **every expression `cron_parse_expr` accepts has non-empty second, minute, hour and month sets** — whatever the
+bytes of the string (names, `?`, hexadecimal / octal numbers, white space …).  (With an empty set `find_next` reports
+its `notfound` value 0 as "unchanged" and `do_next` would return a calendar that does not match.) -/
+theorem C20_cparse_nonempty (s : List Char) (e : CC.CExpr) (h : CC.parseExpr s = some e) : CC.WF e :=
+  CC.parseExpr_wf s e h
+
+/-- **`cron_next` is sound (fields)**: for every string the parser accepts, every start instant `t` and every fuel, an
+instant returned by the transcription of `cron_next` lies on a day whose month, day of month AND weekday are allowed,
+at an allowed hour, minute and second — it satisfies the declarative `Cron.CronMatch` of the expression it stands for. -/
+theorem C20_cnext_matches (s : List Char) (e : CC.CExpr) (t fuel r : Nat) (hp : CC.parseExpr s = some e)
+    (h : CC.cronNext e t fuel = some r) : Cron.CronMatch e.toExpr r :=
+  CC.cronNext_match e (CC.parseExpr_wf s e hp) t fuel r h
+
+/-- `do_next` alone: success ⇒ normalised calendar with every field allowed, from ANY normalised start calendar, any `dot` -/
+theorem C20_cdo_next_sound (e : CC.CExpr) (hw : CC.WF e) (dot fuel : Nat) (c c' : CC.Tm) (hn : CC.Norm c)
+    (h : CC.doNext e dot fuel c = some c') : CC.Norm c' ∧ CC.MatchTm e c' :=
+  CC.doNext_sound e hw dot fuel c c' hn h
+
+/-- **`cron_next` returns an instant strictly after `t`**: every step of `do_next` (find_next with its roll-over and
+reset-lower-fields logic for seconds, minutes, hours and months; the day loop) moves the calendar forward or leaves it,
+and `cron_next` restarts one second later when it arrives at the original instant. -/
+theorem C20_cnext_after (s : List Char) (e : CC.CExpr) (t fuel r : Nat) (hp : CC.parseExpr s = some e)
+    (h : CC.cronNext e t fuel = some r) : t < r :=
+  CC.cronNext_after e (CC.parseExpr_wf s e hp) t fuel r h
+
+/-- **soundness of the transcribed `cron_next`** for every accepted expression string, every t and fuel: the result is
+strictly after t and matches every field. -/
+theorem C20_cnext_sound (s : List Char) (e : CC.CExpr) (t fuel r : Nat) (hp : CC.parseExpr s = some e)
+    (h : CC.cronNext e t fuel = some r) : t < r ∧ Cron.CronMatch e.toExpr r :=
+  ⟨C20_cnext_after s e t fuel r hp h, C20_cnext_matches s e t fuel r hp h⟩
+
+/-- `do_next` never moves backwards, from any normalised calendar -/
+theorem C20_cdo_next_forward (e : CC.CExpr) (hw : CC.WF e) (dot fuel : Nat) (c c' : CC.Tm) (hn : CC.Norm c)
+    (h : CC.doNext e dot fuel c = some c') : CC.timegm c ≤ CC.timegm c' :=
+  CC.doNext_forward e hw dot fuel c c' hn h
+
+-- OPEN: `C20_cnext_earliest` — CC.cronNext e t fuel = Cron.nextCron e.toExpr t H for sufficient fuel / H (minimality: no
+--   matching instant between t and r; the exact year horizon; sufficiency of the fuel); `Cron.nextCron` IS proved earliest (`C20_cron_earliest`, `C20_cron_horizon`), and the driver
+--   compares the two on every generated case (a disagreement is reported as a broken correspondence of the model).
+
+/-- the parser on concrete strings: month / day names in any case, `?`, hexadecimal and octal numbers (strtol base 0),
+Sunday as 7, a tab inside a field is dropped; rejected: five fields, a name that is none, `08` (octal), 256 characters -/
+example : CC.parseExpr "*/15 0x10 010 ? JAN-mar,DEC sun,7".toList
+    = some { seconds := 35185445863425, minutes := 65536, hours := 256, dow := 1, dom := 4294967294, months := 2055 } := by decide
+example : CC.parseExpr "0 0 1\t2 * * 1-5".toList = some { seconds := 1, minutes := 1, hours := 4096, dow := 62, dom := 4294967294, months := 4095 } := by decide
+example : CC.parseExpr "* * * * *".toList = none ∧ CC.parseExpr "0 0 0 * JANU *".toList = none ∧ CC.parseExpr "08 * * * * *".toList = none := by decide
+/-- "0 0 0 29 2 *" from 2024-02-29 00:00:00: the next Feb 29 (2028) is found, from 2096 it is not (2104 lies beyond the horizon) -/
+example : (CC.parseExpr "0 0 0 29 2 *".toList).map (fun e => (CC.cronNext e 1709164800 300, CC.cronNext e 3981398400 300))
+    = some (some 1835395200, none) := by decide +kernel
+
+/-! ### Part 7 — widths and the ends of the 32-bit range (tools/narrowing/C20.txt) -/
+
+/-- `utc_sec = utc_tv.tv_sec` (alarm.cpp:38/50, time_t → uint32_t): the alarm sees the wall second modulo 2^32 — exact
+up to 2106-02-07 06:28:15, nothing special at 2^31 (2038), and from 2^32 on the second count starts again at 0 -/
+theorem C20_tv_sec_width (e : Env) :
+    e.sec = e.wallMs / 1000 % 4294967296 ∧ (e.wallMs / 1000 < 4294967296 → e.sec = e.wallMs / 1000) ∧
+    ({ wallMs := 2147483648000, monoMs := 0 } : Env).sec = 2147483648 ∧
+    ({ wallMs := 4294967296000, monoMs := 0 } : Env).sec = 0 :=
+  ⟨rfl, fun h => Nat.mod_eq_of_lt h, by decide, by decide⟩
+
+/-- `remainSeconds()` is `target_utc_sec_ - curr_utc_sec` in uint32_t (alarm.cpp:161): exact while the target is ahead,
+and 2^32 − lateness when the wall clock has passed the target of a running alarm (a late pass, a forward jump) -/
+theorem C20_remain_seconds_width (a : Alarm) (e : Env) (hr : a.st = .running) (ht : a.target < U32) (hs : e.sec < U32) :
+    (e.sec ≤ a.target → remainSeconds a e = a.target - e.sec) ∧
+    (a.target < e.sec → remainSeconds a e = U32 - (e.sec - a.target)) := by
+  unfold remainSeconds w32
+  simp only [hr, if_true, U32_eq] at *
+  constructor <;> intro h <;> omega
+
+-- OPEN (false of the code as it is): the arming theorems without `InRange` — the local computation runs in uint32_t.
+/-- **local time before 1970** (UTC in the first hours of the epoch, negative zone): `next_utc_start_sec + offset`
+wraps to just below 2^32, and 2^32 s is neither a whole number of days nor of weeks.  One-shot alarm for 08:00 at
+UTC−5, wall clock 1970-01-01 00:00:00 UTC: the instant armed is 109904 = 01:31:44 local on Jan 2, not 08:00;
+the weekly alarm with the same setting cannot be enabled at all (every candidate wraps past the comparison). -/
+theorem C20_local_before_1970_counterexample :
+    let e : Env := { wallMs := 0, monoMs := 0 }
+    let os : Alarm := { cls := .oneshot, sod := 28800, st := .inited, tzSet := true, off := -18000 }
+    let wk : Alarm := { cls := .weekly, sod := 28800, mask := 127, st := .inited, tzSet := true, off := -18000 }
+    ¬ InRange (os.base e) os.offset ∧ (activeTimer os e).1.target = 109904 ∧ (109904 - 18000) % D = 5504 ∧ 5504 ≠ os.sod ∧
+    (activeTimer wk e).2 = false := by decide
+
+/-- **the last days before 2106-02-07 06:28:16**: when the next matching instant is not representable in 32 bits the
+weekly / workday scan compares against wrapped candidates and reports "no instant" (enable() fails); the one-shot
+computation returns the wrapped instant and the armed delay is still the true distance (all arithmetic is modulo 2^32). -/
+theorem C20_end_of_range_counterexample :
+    nextWeekly 0 127 (U32 - 1) = none ∧
+    nextOneshot 0 (U32 - 1) = 63104 ∧ U32 - 1 + 63105 = U32 + 63104 ∧
+    (activeTimer { cls := .oneshot, sod := 0, st := .inited, tzSet := true, off := 0 } { wallMs := (U32 - 1) * 1000, monoMs := 0 }).1.timer
+      = some 63105000 := by
+  refine ⟨by decide, by decide, by decide, by decide⟩
+
+/-- `initialize(seconds_of_day, …)` rejects every value outside [0, 86400) — the whole `int` range — and leaves the
+alarm as it was -/
+theorem C20_init_rejects_out_of_range (a : Alarm) (sod : Int) (mask : List Bool) (wd : Bool) (h : sod < 0 ∨ sod ≥ 86400) :
+    initAlarm a sod mask wd = (a, false) := by
+  unfold initAlarm initClassic
+  by_cases h1 : a.cls = .cron
+  · simp [h1]
+  · by_cases h2 : a.st = .running <;> simp [h1, h2, h]
+
+/-- the weekly mask string: exactly seven characters, bit i set iff character i is '1' (anything else counts as '0') -/
+theorem C20_week_mask_string (a : Alarm) (sod : Int) (mask : List Bool) (hc : a.cls = .weekly) (hr : a.st ≠ .running)
+    (hs : 0 ≤ sod ∧ sod < 86400) :
+    (mask.length ≠ 7 → initAlarm a sod mask true = (a, false)) ∧
+    (mask.length = 7 → (initAlarm a sod mask true).2 = true ∧ ∀ i, i < 7 → bit (initAlarm a sod mask true).1.mask i = mask.getD i false) := by
+  have h0 : ¬ (sod < 0 ∨ sod ≥ 86400) := by omega
+  refine ⟨fun hl => ?_, fun hl => ?_⟩
+  · unfold initAlarm initClassic; simp [hc, hr, h0, hl]
+  · have hfold : ∀ b0 b1 b2 b3 b4 b5 b6 : Bool, ∀ i, i < 7 →
+        bit (([b0, b1, b2, b3, b4, b5, b6].zipIdx.filter (·.1)).foldl (fun acc p => acc ||| (1 <<< p.2)) 0) i
+          = [b0, b1, b2, b3, b4, b5, b6].getD i false := by decide
+    match mask, hl with
+    | [b0, b1, b2, b3, b4, b5, b6], _ =>
+      unfold initAlarm initClassic
+      simp only [hc, hr, h0, reduceCtorEq, if_false, true_and, List.length_cons, List.length_nil, ne_eq, not_true_eq_false, if_true]
+      exact fun i hi => hfold b0 b1 b2 b3 b4 b5 b6 i hi
+
+/-! ### Part 8 — wall-clock jumps between arming and firing -/
+
+/-- **what the re-arm at an expiry guarantees under clock jumps**: the timer fires on the monotonic clock
+(`C20_wall_step_not_seen_until_refresh`); at that moment the wall clock may be anywhere — days behind the target (stepped
+back, or the monotonic clock ran ahead) or days past it.  The next instant is computed from `max(now, served target)`:
+it is the EARLIEST matching local instant strictly after both, so a backward jump can never make the served instant (or
+anything before it) fire again, and a forward jump skips the instants that the jump passed over (they are not replayed). -/
+theorem C20_rearm_after_clock_jump (a : Alarm) (e : Env) (hcls : a.cls ≠ .oneshot) (hcron : a.cls ≠ .cron) (hs : a.sod < D)
+    (hr : InRange (max e.sec a.target) a.offset) (hrun : (expire a e).1.st = .running) :
+    ∃ nl, Earliest (Matches a e.cal) (addOff (max e.sec a.target) a.offset) nl ∧
+      (((expire a e).1.target : Nat) : Int) + a.offset = nl := by
+  have hex : (expire a e).1 = (activeTimer { a with timer := none, st := .inited, nFired := a.nFired + 1, lastServed := a.target } e).1 := by
+    unfold expire; cases hc : a.cls <;> simp_all
+  rw [hex] at hrun ⊢
+  have hbase : Alarm.base { a with timer := none, st := .inited, nFired := a.nFired + 1, lastServed := a.target } e
+      = max e.sec a.target := by unfold Alarm.base; simp only; omega
+  rcases activeTimer_cases { a with timer := none, st := .inited, nFired := a.nFired + 1, lastServed := a.target } e with ⟨hok, _, _⟩ | ⟨_, heq⟩
+  · obtain ⟨nl, h1, h2, _⟩ := C20_tz { a with timer := none, st := .inited, nFired := a.nFired + 1, lastServed := a.target } e hs
+        (by rw [hbase]; exact hr) (farOk_classic _ e hcron hs (by rw [hbase]; exact hr)) hok
+    rw [hbase] at h1
+    exact ⟨nl, h1, h2⟩
+  · rw [heq] at hrun; simp at hrun
+
 /-! ### non-vacuity -/
 
 /-- Tuesday 2023-11-14 22:13:20 UTC, alarm at 10:00 on Wednesdays and Sundays → Wed 10:00 -/
@@ -397,6 +544,14 @@ example : ((expire { demoAlarm with st := .running, target := 1700008200, timer 
 example : (arun (fresh .oneshot)
     [({ wallMs := 1000000000, monoMs := 0 }, .init 100 [] true), ({ wallMs := 1000000000, monoMs := 0 }, .enable),
      ({ wallMs := 90000000000, monoMs := 89000000000 }, .pass), ({ wallMs := 190000000000, monoMs := 189000000000 }, .pass)]).2.length = 1 := by decide
+
+/-- a weekly alarm armed for 10:00 whose timer fires while the wall clock was stepped back by a day: the re-arm starts from the served target -/
+example : ((expire { demoAlarm with st := .running, target := 1700008200, timer := some 1 }
+    { wallMs := 1699921800000, monoMs := 9000000 }).1.target) = 1700094600 := by decide
+example : InRange (max ({ wallMs := 1699921800000, monoMs := 9000000 } : Env).sec 1700008200) demoAlarm.offset := by decide
+/-- hypotheses of the width theorems are satisfiable -/
+example : (initAlarm (fresh .weekly) 2147483647 [true, true, true, true, true, true, true] true).2 = false := by decide
+example : (initAlarm (fresh .weekly) 100 [true, false, false, false, false, false, true] true).1.mask = 65 := by decide
 
 /-- calendar sanity: epoch, a leap day, the non-leap century 2100, end of the uint32 range -/
 example : Cron.civil 0 = (1970, 1, 1) ∧ Cron.civil 11016 = (2000, 2, 29) ∧ Cron.civil 47540 = (2100, 2, 28) ∧
